@@ -312,7 +312,7 @@ PROPS["C04"] = dict(
          "of histories (listed as open known findings, each predicted exactly by the model) leave the switch different from the image. The image clause is "
          "decided per observed history. Meter cells of a killed incarnation are not reset at start-up; the crash clause of the statement names table entries "
          "only and is checked as such. Priority of an applications entry is not part of the image (the statement asks for one entry per filter).",
-    rule="rounds (6 quick / 60 thorough) with a drawn slice ID, default TC and QFI->TC map: start, 1-2 associations, a random history of 25 (60) requests over "
+    rule="rounds (6 quick / 400 thorough) with a drawn slice ID, default TC and QFI->TC map: start, 1-2 associations, a random history of 25 (80) requests over "
          "up to 6 live sessions of 8 shapes (per-direction / shared / no QERs, session QER, application filters shared between sessions, buffering FAR, further "
          "PDRs sharing TEID / UE address, closed gates) sharing 3 gNB peers: establish, delete, buffer (with / without forwarding parameters), forward to the "
          "same / another gNB, QER update (rates, gates, QFI), FAR action, remove / create PDR, PDR update (precedence, filter); every second round the agent "
@@ -326,19 +326,20 @@ PROPS["C15"] = dict(
     level="proof",
     claim="Theorems, for every request sequence of any length and EVERY environment (every identifier Pop() may hand out, every Write RPC served / failed as a "
           "whole / any update refused with any status): the two meter pools and the meters map stay exclusive (a cell is never free while a recorded meter "
-          "holds it, never held by two meters, always inside 1..1023); application-meter operations never touch the session pool nor the reverse, and a failed "
+          "holds it, never held by two meters, always inside 1..1023), and so do tunnel-peer IDs and application IDs (a holder's ID is never in the free queue, "
+          "two holders never share one, the queue never holds one twice); application-meter operations never touch the session pool nor the reverse, and a failed "
           "meter Write returns exactly the popped cells to the pool they came from; sendCreate / sendUpdate report success only if no Write of the request "
           "failed (ALREADY_EXISTS excepted). T2: the same model must predict the real agent under injected failures: every (request, write position, "
           "failure kind) of three scenario families, plus random multi-fault runs, each followed by further sessions that would receive a wrongly recycled "
           "identifier; oracles on the observation: identifiers in installed entries are exclusive, pool occupancy read through the hook adds up "
           "(free + held = pool size per meter pool; free + held <= size for counters), the PFCP cause after a failed write is not 'accepted'.",
-    note="partial: counter cells, tunnel-peer IDs and application IDs are decided by correspondence + oracles (evaluated on model state and observation after "
-         "every event), not by a theorem; leaks (identifiers lost after a refused request) are not violations of this property and are not reported here. "
+    note="partial: counter cells are decided by correspondence + oracles (evaluated on model state and observation after every event), not by a theorem "
+         "(their owners are the PDRs of stored sessions); leaks (identifiers lost after a refused request) are not violations of this property and are not reported here. "
          "The removal part of a modification (Remove PDR/FAR/QER) issues best-effort writes whose failure is swallowed by design (resetMeters, "
          "removeGTPTunnelPeer); the 'failed write => rejected' theorem covers establishment and the create/update part of a modification.",
     rule="three scenario families of 8-11 requests over sessions sharing a gNB and an application filter; one fault-free run counts the Writes of every step; "
          "then one fresh run per (step, k-th Write of the step) with the RPC failed as a whole, and (thorough: all; quick: every second) with the first / second "
-         "update refused (INTERNAL / RESOURCE_EXHAUSTED); then random multi-fault runs (6 / 60 per family); every run ends with 3 further sessions; "
+         "update refused (INTERNAL / RESOURCE_EXHAUSTED); then random multi-fault runs (6 / 600 per family); every run ends with 3 further sessions; "
          "non-trivial = an accepted request",
     trusted_base=P4_TB,
     assumptions=["a failing Write is either refused as a whole (nothing applied) or answered with per-update statuses (the refused update not applied)"],
@@ -357,7 +358,7 @@ PROPS["C16"] = dict(
           "repository's generator is built and run 12 (60) times on the shipped P4Info and compared byte for byte (after gofmt) with the committed constants.",
     note="partial: generator determinism is observed over repeated runs, not proved; protobuf encoding is the library's; LPM values are not required to have "
          "zero bits beyond the prefix (the property does not ask for it).",
-    rule="generator runs; then 4 (16) configurations (slice 0/15/7/1, default TC 0-3, a QFI->TC map): every precedence in {0,1,255,256,32768,65534,65535} x every "
+    rule="generator runs; then 4 (16) configurations (slice 0/15/7/1, default TC 0-3, a QFI->TC map): every precedence in {0,1,255,256,32768,65534,65535} (thorough: plus 48 drawn from 0..65535) x every "
          "SDF filter of the pool (quick: a third), boundary TEIDs / gNB addresses / MBRs (0 .. 2^40-1) / QFIs {0,1,9,32,63} / gates, FAR actions incl. buffer "
          "and drop; establish, update QER / FAR, delete; non-trivial = an accepted request",
     trusted_base=P4_TB + ["gofmt (as the repository's make target formats the generated file)"],
